@@ -26,6 +26,8 @@ type Case struct {
 	Limit  int      `json:"limit"`
 	Passes int      `json:"passes"`
 	Chosen []string `json:"chosencases"`
+	// Hold: the consumer acquires this many ammo before it reads any of them (what that many instances do)
+	Hold int `json:"held_at_once"`
 }
 
 var tagPool = []string{"t1", "t2", "t3", "a b", "x"}
@@ -42,6 +44,7 @@ func genCase(t *rapid.T) Case {
 		c.Limit = rapid.IntRange(1, 12).Draw(t, "limit")
 		c.Passes = rapid.IntRange(1, 3).Draw(t, "passes")
 	}
+	c.Hold = rapid.SampledFrom([]int{1, 1, 2, 3, 4}).Draw(t, "hold")
 	switch rapid.IntRange(0, 5).Draw(t, "chosenKind") {
 	case 0:
 		// none configured
@@ -120,7 +123,7 @@ func run(c Case, preload bool, take int) (outcome, error) {
 		return outcome{}, fmt.Errorf("valid provider config rejected (preload=%v): %v", preload, err)
 	}
 	var out outcome
-	res, err := provrun.Drain(p, take, 1, 5*time.Second, func(a core.Ammo) error {
+	res, err := provrun.DrainHeld(p, take, c.Hold, 5*time.Second, func(a core.Ammo) error {
 		g, err := ag.Observe(a)
 		if err != nil {
 			return err
@@ -224,6 +227,8 @@ func checkWith(c Case, o *vf.Obs, r *vf.Run) error {
 	}
 	proper := len(c.Chosen) > 0 && len(sel) > 0 && len(sel) < E
 	o.Class("format_" + c.File.Format)
+	o.ClassIf(c.Hold >= 2, "several_ammo_held_at_once")
+	o.ClassIf(c.Hold >= 2 && len(sel) > 0 && len(sel) < c.Hold && want > len(sel), "one_entry_held_twice")
 	o.ClassIf(c.File.Big, "file_larger_than_reader_buffer")
 	o.ClassIf(len(c.Chosen) > 0 && c.Limit > 0, "filter_x_limit")
 	o.ClassIf(len(c.Chosen) > 0 && c.Passes > 0, "filter_x_passes")
